@@ -19,6 +19,8 @@ func TestSim(t *testing.T) {
 		switch prop {
 		case "C06":
 			RunC06(st, tier, leg, logOn, res)
+		case "C02", "C03":
+			RunAdv(prop, st, tier, leg, logOn, res)
 		default:
 			panic("unknown SIM_PROP " + prop)
 		}
